@@ -209,6 +209,61 @@ def t_mul(E, kind):
 
 
 # ---------------------------------------------------------------------------
+# /   (bounded stand-in: the long-division loop of Float._div_den needs an inductive
+#      invariant with nonlinear ghost state that is not discharged yet - see DESIGN.md)
+
+def t_div_bounded(E, kind):
+    cls = CLS[kind]
+    p = f_prec(cls)
+    B = 128 + p
+    vals = values_env()
+    x = new_float(E, cls, vals, 'x')
+    y = new_float(E, cls, vals, 'y')
+    # bias the sample towards extreme exponents now and then
+    x0, y0 = snapshot(x), snapshot(y)
+    ex, ey, mx, my = int(f_exp(x)), int(f_exp(y)), int(f_man(x)), int(f_man(y))
+    neg = bool(f_neg(x)) != bool(f_neg(y))
+    r = E.call(values.div, x, y)
+    E.prove(same_bytes(x, x0) and same_bytes(y, y0), 'operands unchanged')
+    maxman = (1 << p) - 1
+    if ey == 0:
+        E.prove(r.is_error(BASICError, error.DIVISION_BY_ZERO), 'zero divisor raises Division by zero')
+        return
+    if ex == 0:
+        E.prove(not r.raised and bool(f_is_zero(r.value)), 'zero dividend gives zero')
+        return
+    # exact quotient magnitude = (mx / my) * 2^(ex - ey); compare after clearing denominators
+    def scaled(a, e):          # a * 2^e as exact integer pair (num, shift)
+        return a, e
+    if r.raised:
+        E.prove(r.is_error(BASICError, error.OVERFLOW), 'raises only Overflow / Division by zero')
+        # |Q| > (2^p - 2) * 2^(255-B)   <=>   mx * 2^(ex-ey) > (2^p-2) * my * 2^(255-B)
+        lhs, rhs = mx, (maxman - 1) * my
+        sh = (ex - ey) - (255 - B)
+        E.prove((lhs << sh) > rhs if sh >= 0 else lhs > (rhs << -sh),
+                'Overflow only when the exact quotient exceeds the largest number')
+        return
+    res = r.value
+    E.prove(type(res) is cls, 'result has the operand type')
+    if bool(f_is_zero(res)):
+        # |Q| < 2^(p-1) * 2^(1-B)   <=>  mx * 2^(ex-ey) < my * 2^(p-B)
+        sh = (ex - ey) - (p - B)
+        E.prove((mx << sh) < my if sh >= 0 else mx < (my << -sh),
+                'non-zero quotient replaced by zero only below the smallest positive number')
+        return
+    er, mr = int(f_exp(res)), int(f_man(res))
+    E.prove(bool(f_neg(res)) == neg, 'sign of the quotient')
+    # |mr * 2^(er-B) * my * 2^(ey-B) - mx * 2^(ex-B)| < 2^(er-B) * my * 2^(ey-B)
+    a = mr * my
+    b = mx
+    sh = (ex - B) - (er - B + ey - B)      # b * 2^sh compared with a
+    if sh >= 0:
+        E.prove(abs(a - (b << sh)) < my, 'within less than 1 ulp of the exact quotient')
+    else:
+        E.prove(abs((a << -sh) - b) < (my << -sh), 'within less than 1 ulp of the exact quotient')
+
+
+# ---------------------------------------------------------------------------
 # soft handling of Overflow / Division by zero
 
 class _Console(object):
@@ -259,6 +314,10 @@ TASKS = [
                 for a, b in _dchunks(56) if (a, b) not in _DBL_QUICK for o in ('x>=y', 'x<y')]),
     Task('Float._denormalise', t_denormalise, cases=[{'kind': k} for k in CLS]),
     Task('values.mul', t_mul, cases=[{'kind': k} for k in CLS], covers=('overflow', 'underflow', 'nonzero')),
+    Task('values.div (bounded)', t_div_bounded, cases=[{'kind': k} for k in CLS], bounded=True,
+         samples=(20000, 400000),
+         scope='random and boundary-dense operand bit patterns (mantissa bytes and exponents drawn independently); '
+               'not exhaustive, not counted as proved'),
     Task('FloatErrorHandler.handle', t_handler,
          cases=[{'exc': e, 'soft': s, 'suspended': u} for e in ('overflow', 'zerodiv', 'value')
                 for s in (True, False) for u in (True, False)]),
@@ -268,4 +327,4 @@ ASSUMPTIONS = [
     'values.mul is verified against the contract of Float._denormalise (proved by task Float._denormalise), not its body',
     'products of two symbolic mantissas are z3 nonlinear integer terms (shared by code and spec)',
 ]
-NOT_COVERED = []
+NOT_COVERED = ['Float._div_den / idiv: bounded stand-in only (sampling), the inductive invariant of the long-division loop is not discharged']
